@@ -5,6 +5,7 @@ CONSTANTS
   Size = "M"
   BodyTerms <- MCBodyTerms
   DfltTerms <- MCDfltTerms
+  AliasTerms <- MCAliasTerms
   QueryTerms <- MCQueryTerms
 INVARIANT ResultGround
 INVARIANT Idempotent
